@@ -198,7 +198,7 @@ func (a *voiceAction) AllowedFlowTypes() []flows.FlowType {
 
 // utility struct for actions which operate on other contacts
 type otherContactsAction struct {
-	Groups       []*assets.GroupReference  `json:"groups,omitempty" validate:"dive"`
+	Groups       []*assets.GroupReference  `json:"groups,omitempty" validate:"dive,required"`
 	Contacts     []*flows.ContactReference `json:"contacts,omitempty" validate:"dive"`
 	ContactQuery string                    `json:"contact_query,omitempty" engine:"evaluated"`
 	URNs         []urns.URN                `json:"urns,omitempty"`
